@@ -2,7 +2,7 @@
 OUT6 in-place lag, OUT7 path-buffer sizing.  (OUT1-OUT4: see outbuf.py)"""
 from ..facts import (AnalysisBroken, walk, strip_casts, expr_str, is_null_const, const_val, ASSIGN_OPS, callee_name)
 from ..dataflow import solve, node_effects, access, effects
-from .common import all_functions, assignments, is_ref, find_function
+from .common import all_functions, assignments, is_ref, find_function, guarded_by
 
 
 # ---- format strings ---------------------------------------------------------------------------------
@@ -435,6 +435,9 @@ def _lin_add(a, b, sign=1):
     return (c, {k: v for k, v in t.items() if v != 0})
 
 
+_UNIT = None
+
+
 def _lin(e, env):
     """Linear form (const, {term: coeff}) of a size expression; terms are strlen(X) / pel(X)."""
     e = strip_casts(e)
@@ -453,6 +456,11 @@ def _lin(e, env):
             return (0, {'strlen(%s)' % expr_str(strip_casts(e['args'][0])): 1})
         if cn == 'pointer_encoded_length':
             return (0, {'pel(%s)' % expr_str(strip_casts(e['args'][0])): 1})
+        if _UNIT is not None and cn in _UNIT.functions and e.get('ty') is not None:
+            t = _UNIT.ty(e.get('ty0', e['ty']))
+            pure = all(strip_casts(a).get('k') in ('ref', 'mem', 'int') or const_val(a) is not None for a in e['args'])
+            if t['c'] == 'int' and t.get('unsigned') and pure:
+                return (0, {'%s(%s)' % (cn, ', '.join(expr_str(strip_casts(a)) for a in e['args'])): 1})   # some non-negative count
         return None
     if k == 'ref' and e['d'] in env:
         return env[e['d']]
@@ -505,9 +513,144 @@ def _fmt(l):
     return ' + '.join(parts)
 
 
+def _bounded_writer(u, h):
+    """{destination parameter index: length parameter index} when every store of h through the destination parameter has an
+    index in [0, length): the down-counting idiom (while (n > 0) { n--; d[n] = ..; }) or the up-counting one
+    (for (i = 0; i < n; i++) d[i] = ..;).  None when h stores through a pointer parameter in a way that is not recognised."""
+    from ..dataflow import node_effects
+    out = {}
+    pidx = {p['d']: i for i, p in enumerate(h.params)}
+    cfg = h.cfg()
+    mods = {}          # decl -> list of ('dec'|'inc'|'other', node id)
+    for m in cfg.nodes:
+        for ev in node_effects(m):
+            if ev.kind == 'incdec' and strip_casts(ev.lhs).get('k') == 'ref':
+                mods.setdefault(strip_casts(ev.lhs)['d'], []).append(('dec' if ev.delta < 0 else 'inc', m.id))
+            elif ev.kind == 'store' and strip_casts(ev.lhs).get('k') == 'ref':
+                r = ev.rhs
+                kind = 'zero' if (r is not None and const_val(r) == 0 and ev.node['op'] == '=') else 'other'
+                mods.setdefault(strip_casts(ev.lhs)['d'], []).append((kind, m.id))
+            elif ev.kind == 'declinit' and ev.rhs is not None:
+                mods.setdefault(ev.lhs['d'], []).append(('zero' if const_val(ev.rhs) == 0 else 'other', m.id))
+    for m in cfg.nodes:
+        for ev in node_effects(m):
+            if ev.kind != 'store':
+                continue
+            l = strip_casts(ev.lhs)
+            acc = access(l) if l.get('k') in ('idx', 'un') else None
+            if acc is None:
+                continue
+            base = strip_casts(acc[0])
+            if base.get('k') != 'ref' or base.get('d') not in pidx:
+                continue
+            di = pidx[base['d']]
+            if mods.get(base['d']):
+                return None
+            idx = acc[1]
+            if not isinstance(idx, dict) or strip_casts(idx).get('k') != 'ref':
+                return None
+            iv = strip_casts(idx)['d']
+
+            def guard_lt(nn, lab, iv=iv):
+                """true edge of  iv < N  /  iv > 0  /  iv != 0  /  iv"""
+                if nn.kind != 'branch' or lab is None or lab[0] != 'T':
+                    return None
+                c = strip_casts(nn.expr)
+                if c.get('k') == 'ref' and c['d'] == iv:
+                    return 'pos'
+                if c.get('k') == 'bin' and strip_casts(c['l']).get('k') == 'ref' and strip_casts(c['l'])['d'] == iv:
+                    if c['op'] in ('>', '!=') and const_val(c['r']) == 0:
+                        return 'pos'
+                    if c['op'] == '<' and strip_casts(c['r']).get('k') == 'ref' and strip_casts(c['r']).get('d') in pidx:
+                        return ('lt', strip_casts(c['r'])['d'])
+                return None
+            ok = False
+            if iv in pidx and all(k == 'dec' for (k, _n) in mods.get(iv, [])):
+                # down-counting: every path to the store passes `iv > 0` and then exactly one decrement
+                decs = {n for (_k, n) in mods.get(iv, [])}
+                gates = [g for g in cfg.nodes if any(guard_lt(g, lab) == 'pos' for (_y, lab) in cfg.succ[g.id])]
+                for g in gates:
+                    for (y, lab) in cfg.succ[g.id]:
+                        if guard_lt(g, lab) != 'pos':
+                            continue
+                        # from the true edge to the store: one decrement node, on every path
+                        reach_wo = cfg.reachable(y, stop=decs) | {y}
+                        first = (y in decs) or (m.id not in reach_wo)
+                        once = False
+                        for dnode in decs:
+                            after = cfg.reachable(dnode, stop=(decs - {dnode}) | {g.id}) | {dnode}
+                            if m.id in after or dnode == m.id:
+                                once = True
+                        if first and once and guarded_by(cfg, m.id, lambda nn, lab2, g=g: nn.id == g.id and lab2 is not None and lab2[0] == 'T'):
+                            ok = True
+                            out[di] = pidx[iv]
+            else:
+                kinds = [k for (k, _n) in mods.get(iv, [])]
+                if kinds and all(k in ('zero', 'inc') for k in kinds) and 'zero' in kinds:
+                    incs = {n for (k, n) in mods[iv] if k == 'inc'}
+                    for g in cfg.nodes:
+                        for (y, lab) in cfg.succ[g.id]:
+                            r = guard_lt(g, lab)
+                            if isinstance(r, tuple) and not mods.get(r[1]):
+                                reach_wo = cfg.reachable(y, stop=incs) | {y}
+                                if (m.id in reach_wo) and guarded_by(cfg, m.id, lambda nn, lab2, g=g: nn.id == g.id and lab2 is not None and lab2[0] == 'T'):
+                                    ok = True
+                                    out[di] = pidx[r[1]]
+            if not ok:
+                return None
+    return out
+
+
+def _inline_writers(u, h, pi, call):
+    """The string-writer calls of helper h whose destination is its parameter pi, with h's parameters replaced by the arguments of
+    `call` - or None when h does anything else with that parameter (stores through it, hands it on, changes it)."""
+    import copy
+    pd = h.params[pi]['d']
+    sub = {p['d']: a for p, a in zip(h.params, call['args'])}
+    WR = ('sprintf', 'strcat', 'strcpy', 'encode_string_as_pointer', 'memcpy')
+    uses = [x for x in h.nodes() if x.get('k') == 'ref' and x.get('d') == pd]
+    wcalls = []
+    accounted = 0
+    for c in h.calls():
+        if callee_name(c) in WR and c['args']:
+            base, _o = _ptr_split(c['args'][0])
+            if base.get('k') == 'ref' and base.get('d') == pd:
+                wcalls.append(c)
+                accounted += sum(1 for x in walk(c['args'][0]) if x.get('k') == 'ref' and x.get('d') == pd)
+    if not wcalls or accounted != len(uses):
+        return None
+    # parameters must not be modified in the helper (their values are the caller's expressions)
+    for a in assignments(h):
+        l = strip_casts(a['l'])
+        if l.get('k') == 'ref' and l.get('d') in sub:
+            return None
+    if any(x.get('k') == 'un' and '++' in x.get('op', '') or x.get('k') == 'un' and '--' in x.get('op', '') for x in h.nodes()):
+        return None
+
+    def subst(x):
+        if isinstance(x, list):
+            return [subst(y) for y in x]
+        if not isinstance(x, dict):
+            return x
+        if x.get('k') == 'ref' and x.get('d') in sub:
+            return copy.deepcopy(sub[x['d']])
+        return {k: subst(v) for k, v in x.items()}
+    out = []
+    for c in wcalls:
+        c2 = subst(c)
+        c2['loc'] = call['loc']
+        c2['via_helper'] = h.name
+        out.append(c2)
+    return out
+
+
 def out7(units, R):
+    global _UNIT
     u = units['cJSON_Utils.c']
+    _UNIT = u
     nsites = 0
+    summaries = {}
+    broken = []
     for fn in u.function_list:
         env = None
         cfg = None
@@ -526,6 +669,26 @@ def out7(units, R):
                     base, _off = _ptr_split(c['args'][0])
                     if base.get('k') == 'ref' and base['d'] == d['d']:
                         writers.append(c)
+                elif cn in u.functions and u.functions[cn].body is not None:
+                    # a helper of this unit handed a pointer into the block through a parameter it may write through
+                    h = u.functions[cn]
+                    for ai, a in enumerate(c['args']):
+                        base, _off = _ptr_split(a)
+                        if base.get('k') == 'ref' and base['d'] == d['d'] and ai < len(h.params):
+                            pt = u.ty(h.params[ai]['ty'])
+                            if pt['c'] == 'ptr' and not pt.get('pointee_const'):
+                                inl = _inline_writers(u, h, ai, c)
+                                if inl is not None:
+                                    writers.extend(inl)      # the helper only forwards to string writers: those calls, with its arguments put in
+                                    continue
+                                if cn not in summaries:
+                                    summaries[cn] = _bounded_writer(u, h)
+                                sm = summaries[cn]
+                                if sm is None or ai not in sm:
+                                    broken.append('OUT7: %s hands %s to %s, whose stores through that parameter are neither calls of the string '
+                                                  'writers nor bounded by a recognised counting loop' % (fn.name, d['n'], cn))
+                                    continue
+                                writers.append(c)
             if not writers:
                 continue
             nsites += 1
@@ -560,6 +723,27 @@ def out7(units, R):
                     continue
                 cn = callee_name(wnode)
                 args = wnode['args']
+                if cn in summaries and summaries[cn]:
+                    for ai, li in summaries[cn].items():
+                        base, offs = _ptr_split(args[ai])
+                        if not (base.get('k') == 'ref' and base['d'] == d['d']):
+                            continue
+                        off = (0, {})
+                        for o in offs:
+                            lo = _lin(o, env)
+                            off = _lin_add(off, lo) if (off is not None and lo is not None) else None
+                        n_ = _lin(args[li], env) if li < len(args) else None
+                        if off is None or n_ is None:
+                            R.ob('OUT7', fn, wnode, 'extent of %s' % what, False, 'offset or count is not linear', key='w:' + what)
+                            continue
+                        need = _lin_add(off, n_)
+                        ok = _leq(need, size)
+                        R.ob('OUT7', fn, wnode, '%s fits the block of %s bytes' % (what, _fmt(size)), ok,
+                             '%s stores below index %s of its destination: at most %s bytes' % (cn, expr_str(strip_casts(args[li])), _fmt(need)) if ok
+                             else 'may write %s bytes into %s' % (_fmt(need), _fmt(size)), key='w:' + what)
+                        if cur is None or _leq(cur, need):
+                            cur = need
+                    continue
                 _b, offs = _ptr_split(args[0])
                 off = (0, {})
                 for o in offs:
@@ -582,7 +766,9 @@ def out7(units, R):
                             continue
                         arg = args[ai] if ai < len(args) else None
                         ai += 1
-                        if piece[1] == 's':
+                        if piece[1] == 's' and arg is not None and strip_casts(arg).get('k') == 'str':
+                            total = _lin_add(total, (len(bytes(strip_casts(arg)['bytes']).split(b'\0')[0]), {}))
+                        elif piece[1] == 's':
                             total = _lin_add(total, (0, {'strlen(%s)' % expr_str(strip_casts(arg)): 1}))
                         else:
                             m = conv_max_len(piece, u, arg)
@@ -631,3 +817,5 @@ def out7(units, R):
                      'writes at most %s bytes' % _fmt(need) if ok else 'may write %s bytes into %s' % (_fmt(need), _fmt(size)),
                      key='w:' + what)
     R.floor('OUT7', 'sized string blocks in Utils', nsites, 3)
+    if broken:
+        raise AnalysisBroken(broken[0])
